@@ -2095,8 +2095,9 @@ class PPEnumFieldType(FieldType):
             self._verify_fmt_modifier(fmt_modifier)
 
         # (1, 1.0 and True are the same dictionary key but are printed
-        # differently: the type is a part of the key)
-        key = (type(value), value)
+        # differently, so are 0.0 and -0.0: the type and the text of
+        # the value are parts of the key)
+        key = (type(value), value, str(value))
         if key not in by_value_cache:
             self._make_text_cache_for_val(
                 value, field_palette, by_fmt_cache)
@@ -2108,7 +2109,7 @@ class PPEnumFieldType(FieldType):
     def _make_text_cache_for_val(self, value, cp, by_fmt_cache) -> None:
         # populate self._cache for value
         # ('by_fmt_cache' is part of self._cache)
-        key = (type(value), value)
+        key = (type(value), value, str(value))
         try:
             name, syntax_name = self.enum_values[value]
             val_len = self.max_val_len
@@ -2152,7 +2153,7 @@ class PPEnumFieldType(FieldType):
         if by_val_lenghs is None:
             self._verify_fmt_modifier(fmt_modifier)
 
-        key = (type(value), value)
+        key = (type(value), value, str(value))
         if key not in by_val_lenghs:
             self._make_len_cache_for_val(value)
 
@@ -2160,7 +2161,7 @@ class PPEnumFieldType(FieldType):
 
     def _make_len_cache_for_val(self, value):
         # populate self._cache_lengths for value
-        key = (type(value), value)
+        key = (type(value), value, str(value))
         try:
             name, _ = self.enum_values[value]
             val_len = self.max_val_len
